@@ -13,10 +13,12 @@ import (
 	"github.com/tableauio/tableau/internal/protogen"
 	"github.com/tableauio/tableau/internal/protogen/parseroptions"
 	"github.com/tableauio/tableau/internal/strcase"
+	"github.com/tableauio/tableau/internal/types"
 	"github.com/tableauio/tableau/internal/x/xfs"
 	"github.com/tableauio/tableau/internal/x/xproto"
 	"github.com/tableauio/tableau/options"
 	"github.com/tableauio/tableau/proto/tableaupb"
+	"github.com/tableauio/tableau/proto/tableaupb/internalpb"
 	"google.golang.org/protobuf/proto"
 	"google.golang.org/protobuf/reflect/protoreflect"
 )
@@ -96,4 +98,55 @@ func CleanSlashPath(path string) string { return xfs.CleanSlashPath(path) }
 // RewriteSubdir is xfs.RewriteSubdir.
 func RewriteSubdir(path string, subdirRewrites map[string]string) string {
 	return xfs.RewriteSubdir(path, subdirRewrites)
+}
+
+// TypeMatch runs the type DSL recognisers of internal/types on text. Each
+// result is nil (no match) or the trimmed submatches.
+func TypeMatch(text string) (mp, list, keyed, strct, enum, scalar []string, prop string) {
+	if d := types.MatchMap(text); d != nil {
+		mp = []string{d.KeyType, d.ValueType, d.Prop.Text}
+	}
+	if d := types.MatchList(text); d != nil {
+		list = []string{d.ElemType, d.ColumnType, d.Prop.Text}
+	}
+	if d := types.MatchKeyedList(text); d != nil {
+		keyed = []string{d.ElemType, d.ColumnType, d.Prop.Text}
+	}
+	if d := types.MatchStruct(text); d != nil {
+		strct = []string{d.StructType, d.CustomName, d.ColumnType, d.Prop.Text}
+	}
+	if d := types.MatchEnum(text); d != nil {
+		enum = []string{d.EnumType, d.Prop.Text}
+	}
+	if d := types.MatchScalar(text); d != nil {
+		scalar = []string{d.ScalarType, d.Prop.Text}
+	}
+	if d := types.MatchProp(text); d != nil {
+		prop = d.Text
+	}
+	return
+}
+
+// BelongToFirstElement is types.BelongToFirstElement.
+func BelongToFirstElement(name, prefix string) bool { return types.BelongToFirstElement(name, prefix) }
+
+// TypeDescriptor is types.ParseTypeDescriptor.
+func TypeDescriptor(rawType string) (name, fullName string, predefined bool, kind int) {
+	d := types.ParseTypeDescriptor(rawType)
+	return d.Name, d.FullName, d.Predefined, int(d.Kind)
+}
+
+// ToSnake is the default strcase context's ToSnake.
+func ToSnake(s string) string { return strcase.New(nil).ToSnake(s) }
+
+type ProtogenTypeInfo = protogen.VerifTypeInfo
+
+// ParseHeader is protogen's default-mode header parser.
+func ParseHeader(protoPackage string, infos []ProtogenTypeInfo, nameRow, typeRow []string, nested bool) ([]*internalpb.Field, int, error) {
+	return protogen.VerifParseHeader(protoPackage, infos, nameRow, typeRow, nested)
+}
+
+// ExportMessager is protogen's message exporter of a default-mode worksheet.
+func ExportMessager(protoPackage string, infos []ProtogenTypeInfo, ws *internalpb.Worksheet) (string, []string, error) {
+	return protogen.VerifExportMessager(protoPackage, infos, ws)
 }
